@@ -203,10 +203,19 @@ def _loop_var(m, f, row):
         for o in cond.ops if cond.op == "icmp" else []:
             while o[0] == "i" and f.insts[o[1]].op in ("sext", "zext", "trunc", "freeze"):
                 o = f.insts[o[1]].ops[0]
-            if o[0] == "i" and f.insts[o[1]].op == "load":
-                base, _p = ir.field_path(m, f, f.insts[o[1]].ops[0])
-                if base[0] == "g" and base[1].split(".")[0] == row["trip_table"]:
-                    trip = base[1]
+            cands = [o]
+            if o[0] == "i" and f.insts[o[1]].op in ("add", "sub") and f.insts[o[1]].ops[0][0] == "i":
+                o = f.insts[o[1]].ops[0]
+                cands = [o]
+            if o[0] == "i" and f.insts[o[1]].op == "phi" and f.insts[o[1]].block.idx == H.idx:
+                cands = list(f.insts[o[1]].ops)          # a counter that starts at the table entry and counts down
+            for o2 in cands:
+                while o2[0] == "i" and f.insts[o2[1]].op in ("sext", "zext", "trunc", "freeze"):
+                    o2 = f.insts[o2[1]].ops[0]
+                if o2[0] == "i" and f.insts[o2[1]].op == "load":
+                    base, _p = ir.field_path(m, f, f.insts[o2[1]].ops[0])
+                    if base[0] == "g" and base[1].split(".")[0] == row["trip_table"]:
+                        trip = base[1]
         if trip is None:
             continue
         def reaches(a_, b_):
@@ -475,10 +484,129 @@ def check_rows(ctx, get_module, props=None, rule="R-GUARD", cfg="release"):
     return n
 
 
+def _check_reach(ctx, m, f, row, rule, cfg):
+    """kind `reach`: with the `given` conditions and the bit field taking each listed value, the calls named in must_reach are executed on every
+    path that does not fail earlier, those in must_not_reach on none (a dispatch between two strategies that depends on a field of the index)"""
+    base_a, base_d = {}, {}
+    _given(m, f, row, base_a, base_d)
+    inst = {"row": row["id"], "function": row["fn"], "module": row.get("mod", "inl"), "config": cfg}
+    names = set(row.get("must_reach", [])) | set(row.get("must_not_reach", []))
+    for nm in row.get("must_reach", []):
+        _calls(f, row, nm)
+    if not any(c.op == "call" and c.callee in names for c in f.all_insts()):
+        raise AnalysisBroken("row %s: %s calls none of %s (anchors vanished)" % (row["id"], f.name, ", ".join(sorted(names))))
+    argcls = row.get("arg_class")          # {"index": k, "class": "even"|"odd"}: the call counts only when that argument (an int or a pointer to a local int) is of the class
+    fld = row["field"]
+    bad, brk = [], []
+    for v in row["values"]:
+        a, d = dict(base_a), dict(base_d)
+        _assume_field(f, row, row["field"], [v], a, d)
+
+        class P:
+            """records the named calls; `kill` ends every path at that call.  Scalars kept in address-taken locals (`int res` whose address is passed on
+            later) are followed: a direct store defines the slot, a direct load reads it, a call that receives the address forgets it."""
+            def __init__(self, kill=None):
+                self.seen = set()
+                self.unknown = set()
+                self.mem_before = {}
+                self.kill = kill
+
+            def on_inst(self, ex, s, i):
+                if i.op == "store" and i.ops[1][0] == "i" and f.insts[i.ops[1][1]].op == "alloca":
+                    v = ex.eval(i.ops[0], s.env)
+                    if v is not None and v[0] == "int":
+                        s.env[("mem", i.ops[1][1])] = v
+                    else:
+                        s.env.pop(("mem", i.ops[1][1]), None)
+                elif i.op == "load" and i.ops[0][0] == "i" and ("mem", i.ops[0][1]) in s.env and i.id not in ex.assume_def:
+                    s.env[("i", i.id)] = s.env[("mem", i.ops[0][1])]
+                elif i.op == "call" and not (i.callee or "").startswith("llvm.dbg") and not (i.callee or "").startswith("llvm.lifetime"):
+                    self.mem_before = {}
+                    for o in i.ops:
+                        if o[0] == "i":
+                            b_ = ir.field_path(m, f, o)[0]
+                            if b_[0] == "i":
+                                if ("mem", b_[1]) in s.env:
+                                    self.mem_before[b_[1]] = s.env[("mem", b_[1])]
+                                s.env.pop(("mem", b_[1]), None)
+                if i.op == "call" and i.callee == "makeDirectChild" and "param" in fld and len(i.ops) >= 1:
+                    # index operation with a known effect on the resolution field (decided for all values by R-BITPROV direct-child): res + 1
+                    src = ex.eval(i.ops[0], s.env)
+                    if src is not None and src[0] == "int" and len(src[2]) <= 1024:
+                        rs = {(lo >> fld["off"]) & ((1 << fld["w"]) - 1) for lo, hi in src[2]} | {(hi >> fld["off"]) & ((1 << fld["w"]) - 1) for lo, hi in src[2]}
+                        if len(rs) == 1 and next(iter(rs)) + 1 < (1 << fld["w"]):
+                            r1 = next(iter(rs)) + 1
+                            top = fld["off"] + fld["w"]
+                            s.env[("i", i.id)] = explore.mk(64, [((hi_ << top) | (r1 << fld["off"]), ((hi_ << top) | (r1 << fld["off"])) + (1 << fld["off"]) - 1) for hi_ in range(1 << (64 - top))])
+                if i.op == "call" and i.callee in names:
+                    counts = True
+                    if argcls is not None and i.callee in row.get("must_not_reach", []):
+                        o = i.ops[argcls["index"]] if argcls["index"] < len(i.ops) else None
+                        av = None
+                        if o is not None and o[0] == "i" and f.insts[o[1]].op == "alloca":
+                            av = self.mem_before.get(o[1])
+                        elif o is not None:
+                            av = ex.eval(o, s.env)
+                        if av is None or av[0] != "int" or explore.count(av) > 64:
+                            counts = None
+                        else:
+                            par = {v & 1 for lo, hi in av[2] for v in range(lo, hi + 1)}
+                            want = 0 if argcls["class"] == "even" else 1
+                            counts = True if par == {want} else (False if want not in par else None)
+                    if counts is None:
+                        self.unknown.add(i.callee)
+                    elif counts:
+                        self.seen.add(i.callee)
+                    if self.kill == i.callee:
+                        return []
+                elif i.op == "call" and i.callee in m.functions and ("i", i.id) not in s.env:
+                    # a pure scalar helper applied to known values (isResolutionClassIII(res)) is evaluated
+                    g = m.functions[i.callee]
+                    if not g.decl and "readnone" in (g.attrs or []) and g.args and not any(x["type"].endswith("*") for x in g.args):
+                        vals = [singleton(ex.eval(o, s.env)) for o in i.ops[:len(g.args)]]
+                        if all(v is not None for v in vals):
+                            from . import ceval
+                            try:
+                                r = ceval.Eval(m, g, vals, {}).run()
+                                s.env[("i", i.id)] = const(r, int(i.type[1:]))
+                            except AnalysisBroken:
+                                pass
+                return None
+        pl = P()
+        ex = Explorer(f, assume=a, assume_def=d, plugin=pl)
+        ex.run()
+        if not ex.rets:
+            brk.append("field = %d: no return reached" % v)
+            continue
+        for nm in row.get("must_not_reach", []):
+            if nm in pl.seen:
+                bad.append("field = %d: %s is called%s" % (v, nm, (" with an %s resolution" % argcls["class"]) if argcls else ""))
+            elif nm in pl.unknown:
+                brk.append("field = %d: %s is called with a resolution argument the analysis cannot classify" % (v, nm))
+        for nm in row.get("must_reach", []):
+            # with every path ended at the call, no return that can be E_SUCCESS may remain
+            ex2 = Explorer(f, assume=a, assume_def=d, plugin=P(kill=nm))
+            ex2.run()
+            for s_, t_, av in ex2.rets:
+                if av is None or av[0] != "int" or not is_empty(inter(av, const(0, av[1]))):
+                    bad.append("field = %d: a return that can be E_SUCCESS is reached without calling %s (lines %s)" % (v, nm, explore.trail_lines(f, s_.trail)))
+                    break
+    if bad:
+        ctx.violation(rule, row["id"], "%s: %s (%s)" % (row["fn"], "; ".join(bad[:3]), row["why"]), f.where(), inst)
+    elif brk:
+        ctx.broken(rule, "row %s: %s" % (row["id"], brk[0]))
+    else:
+        ctx.ok(rule, inst, "for each of the %d field values: %s%s" % (len(row["values"]),
+               ("every successful path calls " + ", ".join(row.get("must_reach", []))) if row.get("must_reach") else "",
+               ("; never calls " + ", ".join(row["must_not_reach"])) if row.get("must_not_reach") else ""))
+
+
 def _check_row(ctx, get_module, row, rule, cfg):
     rule = row.get("rule", rule)
     m = get_module(row.get("mod", "inl"), row["fn"])
     f = m.fn(row["fn"])
+    if row["kind"] == "reach":
+        return _check_reach(ctx, m, f, row, rule, cfg)
     code = CODES[row["code"]] if row.get("code") else None
     out_idx = _param(f, row["nowrite"], row) if row.get("nowrite") else None
     must_idx = _param(f, row["mustwrite"], row) if row.get("mustwrite") else None
